@@ -138,7 +138,10 @@ theorem dropLastBlank_spec (cur : List Str) :
     split
     · rename_i hb
       refine ⟨[l], ?_, Or.inr ⟨l, rfl, hb⟩⟩
-      exact (List.dropLast_append_getLast? l hl).symm
+      have hne : cur ≠ [] := by intro h; simp [h] at hl
+      have hg : cur.getLast hne = l := by
+        rw [List.getLast?_eq_getLast hne] at hl; exact Option.some.inj hl
+      rw [← hg]; exact (List.dropLast_concat_getLast hne).symm
     · exact ⟨[], by simp, Or.inl rfl⟩
   · exact ⟨[], by simp, Or.inl rfl⟩
 
@@ -301,5 +304,434 @@ theorem wrapChunks_width (w : Nat) (cs : List Str) (b : Bool) :
           · right; rw [hx]; simp only [List.flatten_cons, List.flatten_nil, List.append_nil]
             exact ⟨hw, hm, hb⟩
         · exact rec_case _ hl
+
+/-! ### text level: `expandtabs`, `munge`, `splitlines`, `wrapLines` preserve visible characters -/
+
+theorem isWs_sep {c : Char} (h : isWs c = true) : sep c = true := by simp [sep, h]
+
+theorem vis_replicate_space (n : Nat) : vis (List.replicate n ' ') = [] := by
+  unfold vis
+  rw [List.filter_eq_nil_iff]
+  intro x hx
+  have := List.eq_of_mem_replicate hx
+  subst this
+  decide
+
+theorem vis_cons (c : Char) (s : Str) : vis (c :: s) = if sep c then vis s else c :: vis s := by
+  unfold vis
+  rw [List.filter_cons]
+  cases sep c <;> simp
+
+theorem vis_expandtabs (p : Str) (n : Nat) : vis (expandtabs p n) = vis p := by
+  induction p generalizing n with
+  | nil => simp [expandtabs]
+  | cons c cs ih =>
+    unfold expandtabs
+    split
+    · rename_i h
+      have hc : c = '\t' := by simpa using h
+      subst hc
+      rw [vis_append, vis_replicate_space, ih, vis_cons]
+      simp [show sep '\t' = true by decide]
+    · split
+      · rw [vis_cons, vis_cons, ih]
+      · rw [vis_cons, vis_cons, ih]
+
+theorem vis_munge (p : Str) : vis (munge p) = vis p := by
+  induction p with
+  | nil => simp [munge]
+  | cons c cs ih =>
+    unfold munge at ih ⊢
+    rw [List.map_cons, vis_cons, vis_cons, ih]
+    by_cases h : isWs c = true
+    · simp [h, isWs_sep h, show sep ' ' = true by decide]
+    · simp [h]
+
+theorem vis_splitlinesAux (s cur : Str) :
+    vis (splitlinesAux s cur).flatten = vis (cur.reverse ++ s) := by
+  fun_induction splitlinesAux s cur with
+  | case1 cur h => simp_all [vis]
+  | case2 cur h => simp [vis]
+  | case3 c cur h =>
+    have : sep c = true := by simp [sep, h]
+    simp [vis_append, vis_cons, this, vis]
+  | case4 c cur h => simp [vis]
+  | case5 c d rest cur h ih =>
+    have h' : c = '\r' ∧ d = '\n' := by simpa using h
+    obtain ⟨rfl, rfl⟩ := h'
+    rw [vis_flatten_cons, ih]
+    simp [vis_append, vis_cons, show sep '\r' = true by decide, show sep '\n' = true by decide, vis]
+  | case6 c d rest cur h hb ih =>
+    have : sep c = true := by simp [sep, hb]
+    rw [vis_flatten_cons, ih]
+    simp [vis_append, vis_cons, this, vis]
+  | case7 c d rest cur h hb ih =>
+    rw [ih]; simp [vis_append]
+
+theorem vis_textwrap (w : Nat) (p : Str) : vis (textwrap w p).flatten = vis p := by
+  unfold textwrap
+  rw [wrapChunks_vis, splitChunks_flatten, vis_munge, vis_expandtabs]
+
+theorem vis_orEmptyLine (ls : List Str) : vis (orEmptyLine ls).flatten = vis ls.flatten := by
+  unfold orEmptyLine; split <;> simp
+
+theorem vis_wrapLines (text : Str) (w : Nat) : vis (wrapLines text w).flatten = vis text := by
+  unfold wrapLines
+  have key : ∀ ps : List Str, vis (ps.flatMap fun p => orEmptyLine (textwrap w p)).flatten
+      = vis ps.flatten := by
+    intro ps
+    induction ps with
+    | nil => simp
+    | cons p ps ih =>
+      rw [List.flatMap_cons, List.flatten_append, vis_append, ih, vis_flatten_cons,
+        vis_orEmptyLine, vis_textwrap]
+  have hs := vis_splitlinesAux text []
+  simp only [List.reverse_nil, List.nil_append] at hs
+  rw [key, vis_orEmptyLine]
+  exact hs
+
+/-! ### width at text level -/
+
+theorem mem_orEmptyLine {l : Str} {ls : List Str} (h : l ∈ orEmptyLine ls) : l = [] ∨ l ∈ ls := by
+  unfold orEmptyLine at h
+  split at h
+  · left; simpa using h
+  · right; exact h
+
+theorem wrapLines_width (text : Str) (w : Nat) :
+    ∀ l ∈ wrapLines text w, l.length ≤ w ∨ (∀ c ∈ l, isWs c = false) := by
+  intro l hl
+  unfold wrapLines at hl
+  rw [List.mem_flatMap] at hl
+  obtain ⟨p, _, hl⟩ := hl
+  rcases mem_orEmptyLine hl with rfl | hl
+  · left; simp
+  · unfold textwrap at hl
+    rcases wrapChunks_width w _ false l hl with h | ⟨_, hm, hb⟩
+    · exact Or.inl h
+    · right
+      rcases splitChunks_pure _ l hm with hp | hp
+      · unfold isBlank at hb; rw [hp] at hb; cases hb
+      · intro c hc
+        have := List.all_eq_true.mp hp c hc
+        simpa using this
+
+/-! ### words -/
+
+theorem segments_ne_nil (s : Str) : segments s ≠ [] := by
+  cases s with
+  | nil => simp [segments]
+  | cons c cs =>
+    unfold segments
+    split
+    · simp
+    · split <;> simp
+
+theorem segments_cons_sep (c : Char) (cs : Str) (h : sep c = true) :
+    segments (c :: cs) = [] :: segments cs := by
+  rw [segments]; simp [h]
+
+theorem segments_cons_nsep (c : Char) (cs : Str) (h : sep c = false) (hd : Str) (tl : List Str)
+    (hs : segments cs = hd :: tl) : segments (c :: cs) = (c :: hd) :: tl := by
+  rw [segments]; simp [h, hs]
+
+/-- splitting at a separator character -/
+theorem segments_append_sep (a b : Str) (c : Char) (hc : sep c = true) :
+    segments (a ++ c :: b) = segments a ++ segments b := by
+  induction a with
+  | nil => rw [List.nil_append, segments_cons_sep c b hc]; simp [segments]
+  | cons x a ih =>
+    rw [List.cons_append]
+    cases hx : sep x with
+    | true => rw [segments_cons_sep x _ hx, segments_cons_sep x _ hx, ih]; simp
+    | false =>
+      cases hsa : segments a with
+      | nil => exact absurd hsa (segments_ne_nil a)
+      | cons h t =>
+        rw [segments_cons_nsep x a hx h t hsa,
+          segments_cons_nsep x (a ++ c :: b) hx h (t ++ segments b) (by rw [ih, hsa]; simp)]
+        simp
+
+theorem words_append_sep (a b : Str) (c : Char) (hc : sep c = true) :
+    words (a ++ c :: b) = words a ++ words b := by
+  unfold words; rw [segments_append_sep a b c hc, List.filter_append]
+
+theorem words_nil : words [] = [] := by simp [words, segments]
+
+theorem words_sep_cons (c : Char) (b : Str) (hc : sep c = true) : words (c :: b) = words b := by
+  have := words_append_sep [] b c hc
+  simpa [words_nil] using this
+
+theorem words_concat_sep (a : Str) (c : Char) (hc : sep c = true) : words (a ++ [c]) = words a := by
+  have := words_append_sep a [] c hc
+  simpa [words_nil] using this
+
+/-- a text can be cut into two pieces without changing its words wherever a separator is adjacent
+    to the cut -/
+theorem words_append_of_boundary (a b : Str)
+    (h : a = [] ∨ b = [] ∨ (∃ c, a.getLast? = some c ∧ sep c = true) ∨ (∃ c, b.head? = some c ∧ sep c = true)) :
+    words (a ++ b) = words a ++ words b := by
+  rcases h with rfl | rfl | ⟨c, hl, hc⟩ | ⟨c, hh, hc⟩
+  · simp [words_nil]
+  · simp [words_nil]
+  · have hne : a ≠ [] := by intro h; simp [h] at hl
+    have : a = a.dropLast ++ [c] := by
+      have hg : a.getLast hne = c := by
+        rw [List.getLast?_eq_getLast hne] at hl; exact Option.some.inj hl
+      rw [← hg]; exact (List.dropLast_concat_getLast hne).symm
+    rw [this, List.append_assoc, List.singleton_append, words_append_sep _ _ _ hc, words_concat_sep _ _ hc]
+  · cases b with
+    | nil => simp at hh
+    | cons d b =>
+      have : d = c := by simpa using hh
+      subst this
+      rw [words_append_sep _ _ _ hc, words_sep_cons _ _ hc]
+
+theorem words_blank (c : Str) (h : isBlank c = true) : words c = [] := by
+  induction c with
+  | nil => exact words_nil
+  | cons x c ih =>
+    unfold isBlank at h ih
+    simp only [List.all_cons, Bool.and_eq_true] at h
+    rw [words_sep_cons _ _ (isWs_sep h.1)]
+    exact ih h.2
+
+/-- chunk lists in which every cut between neighbours is adjacent to a separator -/
+def Bok : List Str → Prop
+  | [] => True
+  | [x] => x ≠ []
+  | x :: y :: r => x ≠ [] ∧ ((∃ c, x.getLast? = some c ∧ sep c = true) ∨ (∃ c, y.head? = some c ∧ sep c = true)) ∧ Bok (y :: r)
+
+theorem Bok.tail {x : Str} {r : List Str} (h : Bok (x :: r)) : Bok r := by
+  cases r with
+  | nil => trivial
+  | cons y r => exact h.2.2
+
+theorem Bok.head_ne {x : Str} {r : List Str} (h : Bok (x :: r)) : x ≠ [] := by
+  cases r with
+  | nil => exact h
+  | cons y r => exact h.1
+
+theorem Bok.flatMap_words : ∀ (cs : List Str), Bok cs → words cs.flatten = cs.flatMap words
+  | [], _ => by simp [words_nil]
+  | [x], _ => by simp
+  | x :: y :: r, h => by
+    have ih := Bok.flatMap_words (y :: r) h.2.2
+    rw [List.flatten_cons, List.flatMap_cons, ← ih]
+    apply words_append_of_boundary
+    rcases h.2.1 with hl | ⟨c, hh, hc⟩
+    · exact Or.inr (Or.inr (Or.inl hl))
+    · refine Or.inr (Or.inr (Or.inr ⟨c, ?_, hc⟩))
+      have hy : y ≠ [] := Bok.head_ne h.2.2
+      cases y with
+      | nil => exact absurd rfl hy
+      | cons d y => simpa using hh
+
+theorem Bok.suffix : ∀ (a b : List Str), Bok (a ++ b) → Bok b
+  | [], _, h => h
+  | x :: a, b, h => Bok.suffix a b (Bok.tail h)
+
+theorem Bok.prefix : ∀ (a b : List Str), Bok (a ++ b) → Bok a
+  | [], _, _ => trivial
+  | [x], b, h => Bok.head_ne h
+  | x :: y :: a, b, h => ⟨h.1, h.2.1, Bok.prefix (y :: a) b h.2.2⟩
+
+/-- the chunks produced by `splitChunks` have a separator next to every cut -/
+theorem splitChunks_bok (s : Str) : Bok (splitChunks s) := by
+  induction s with
+  | nil => simp [splitChunks, Bok]
+  | cons c cs ih =>
+    unfold splitChunks
+    split
+    · rename_i d ds rest h
+      rw [h] at ih
+      split
+      · -- c joins the first chunk
+        cases rest with
+        | nil => simp [Bok]
+        | cons y r =>
+          refine ⟨by simp, ?_, ih.2.2⟩
+          rcases ih.2.1 with ⟨e, hl, he⟩ | hr
+          · left; exact ⟨e, by simpa using hl, he⟩
+          · right; exact hr
+      · rename_i hne
+        refine ⟨by simp, ?_, ih⟩
+        cases hc : isWs c with
+        | true => left; exact ⟨c, by simp, isWs_sep hc⟩
+        | false =>
+          right
+          refine ⟨d, by simp, isWs_sep ?_⟩
+          cases hd : isWs d with
+          | true => rfl
+          | false => simp [hc, hd] at hne
+    · simp [Bok]
+
+/-- the words of the lines produced by `_wrap_chunks` are the words of the chunks, in order -/
+theorem wrapChunks_words (w : Nat) (cs : List Str) (b : Bool) (hb : Bok cs) :
+    (wrapChunks w cs b).flatMap words = cs.flatMap words := by
+  generalize hn : cs.length = n
+  induction n using Nat.strongRecOn generalizing cs b with
+  | _ n ih =>
+    cases cs with
+    | nil => simp [wrapChunks_nil]
+    | cons c cs =>
+      have hd := stepLine_decreases w c cs b
+      obtain ⟨pre, post, hsp, hpre, hpost⟩ := stepLine_spec w c cs b
+      rw [wrapChunks_cons]
+      have hbok := hb
+      rw [hsp] at hbok
+      have hrest : Bok (stepLine w c cs b).2 := Bok.suffix _ _ hbok
+      have hline : Bok (stepLine w c cs b).1 :=
+        Bok.suffix _ _ (Bok.prefix _ _ (Bok.prefix _ _ hbok))
+      have hpre0 : pre.flatMap words = [] := by
+        rcases hpre with rfl | ⟨rfl, hbl⟩
+        · rfl
+        · simp [words_blank c hbl]
+      have hpost0 : post.flatMap words = [] := by
+        rcases hpost with rfl | ⟨l, rfl, hbl⟩
+        · rfl
+        · simp [words_blank l hbl]
+      have total : (c :: cs).flatMap words =
+          (stepLine w c cs b).1.flatMap words ++ (stepLine w c cs b).2.flatMap words := by
+        conv => lhs; rw [hsp]
+        simp only [List.flatMap_append, hpre0, hpost0, List.nil_append, List.append_nil]
+      rw [total]
+      split
+      · rename_i he
+        have : (stepLine w c cs b).1 = [] := by simpa using he
+        rw [this]
+        simp only [List.flatMap_nil, List.nil_append]
+        exact ih _ (by omega) _ _ hrest rfl
+      · rw [List.flatMap_cons, Bok.flatMap_words _ hline]
+        congr 1
+        exact ih _ (by omega) _ _ hrest rfl
+
+/-! ### words at text level -/
+
+/-- two texts have the same first segment and the same non-empty later segments -/
+def SegRel (A B : Str) : Prop :=
+  ∃ h tA tB, segments A = h :: tA ∧ segments B = h :: tB ∧
+    tA.filter (fun w => !w.isEmpty) = tB.filter (fun w => !w.isEmpty)
+
+theorem SegRel.words_eq {A B : Str} (h : SegRel A B) : words A = words B := by
+  obtain ⟨h, tA, tB, hA, hB, ht⟩ := h
+  unfold words
+  rw [hA, hB, List.filter_cons, List.filter_cons, ht]
+
+theorem SegRel.nil : SegRel [] [] := ⟨[], [], [], by simp [segments], by simp [segments], rfl⟩
+
+theorem SegRel.cons_sep {A B : Str} (h : SegRel A B) (c d : Char) (hc : sep c = true) (hd : sep d = true) :
+    SegRel (c :: A) (d :: B) := by
+  obtain ⟨h, tA, tB, hA, hB, ht⟩ := h
+  refine ⟨[], h :: tA, h :: tB, by rw [segments_cons_sep c A hc, hA], by rw [segments_cons_sep d B hd, hB], ?_⟩
+  rw [List.filter_cons, List.filter_cons, ht]
+
+theorem SegRel.cons_nsep {A B : Str} (h : SegRel A B) (c : Char) (hc : sep c = false) :
+    SegRel (c :: A) (c :: B) := by
+  obtain ⟨h, tA, tB, hA, hB, ht⟩ := h
+  exact ⟨c :: h, tA, tB, segments_cons_nsep c A hc h tA hA, segments_cons_nsep c B hc h tB hB, ht⟩
+
+theorem SegRel.spaces_right {A B : Str} (h : SegRel A B) (n : Nat) :
+    SegRel (' ' :: A) (List.replicate (n + 1) ' ' ++ B) := by
+  induction n with
+  | zero => exact h.cons_sep ' ' ' ' (by decide) (by decide)
+  | succ n ih =>
+    obtain ⟨h, tA, tB, hA, hB, ht⟩ := ih
+    refine ⟨h, tA, [] :: tB, hA, ?_, ?_⟩
+    · rw [List.replicate_succ, List.cons_append, segments_cons_sep ' ' _ (by decide), hB]
+      have : h = [] := by
+        rw [segments_cons_sep ' ' A (by decide)] at hA
+        exact (List.cons.inj hA).1.symm
+      rw [this]
+    · rw [List.filter_cons]; simpa using ht
+
+theorem munge_append (a b : Str) : munge (a ++ b) = munge a ++ munge b := by simp [munge]
+
+theorem munge_replicate_space (n : Nat) : munge (List.replicate n ' ') = List.replicate n ' ' := by
+  simp [munge, show isWs ' ' = true by decide]
+
+theorem segRel_expand (p : Str) (n : Nat) : SegRel p (munge (expandtabs p n)) := by
+  induction p generalizing n with
+  | nil => simpa [expandtabs, munge] using SegRel.nil
+  | cons c cs ih =>
+    unfold expandtabs
+    split
+    · rename_i h
+      have hc : c = '\t' := by simpa using h
+      subst hc
+      rw [munge_append, munge_replicate_space]
+      generalize hK : 8 - n % 8 = K
+      obtain ⟨k, rfl⟩ : ∃ k, K = k + 1 := ⟨K - 1, by omega⟩
+      have := (ih (n + (k + 1))).spaces_right k
+      -- replace the leading ' ' by the tab on the left: both are separators
+      obtain ⟨h, tA, tB, hA, hB, ht⟩ := this
+      refine ⟨h, tA, tB, ?_, hB, ht⟩
+      rw [segments_cons_sep '\t' cs (by decide)]
+      rw [segments_cons_sep ' ' cs (by decide)] at hA
+      exact hA
+    · split
+      · rename_i h
+        have hws : isWs c = true := by
+          rcases (by simpa using h : c = '\n' ∨ c = '\r') with rfl | rfl <;> decide
+        simp only [munge, List.map_cons, hws, ↓reduceIte]
+        exact (ih 0).cons_sep c ' ' (isWs_sep hws) (by decide)
+      · simp only [munge, List.map_cons]
+        by_cases hws : isWs c = true
+        · simp only [hws, ↓reduceIte]
+          exact (ih (n + 1)).cons_sep c ' ' (isWs_sep hws) (by decide)
+        · simp only [hws, Bool.false_eq_true, ↓reduceIte]
+          cases hs : sep c with
+          | true => exact (ih (n + 1)).cons_sep c c hs hs
+          | false => exact (ih (n + 1)).cons_nsep c hs
+
+theorem words_expand (p : Str) (n : Nat) : words (munge (expandtabs p n)) = words p :=
+  (segRel_expand p n).words_eq.symm
+
+theorem words_textwrap (w : Nat) (p : Str) : (textwrap w p).flatMap words = words p := by
+  unfold textwrap
+  rw [wrapChunks_words _ _ _ (splitChunks_bok _), ← Bok.flatMap_words _ (splitChunks_bok _),
+    splitChunks_flatten, words_expand]
+
+theorem words_orEmptyLine (ls : List Str) : (orEmptyLine ls).flatMap words = ls.flatMap words := by
+  unfold orEmptyLine; split <;> simp [words_nil]
+
+theorem words_splitlinesAux (s cur : Str) :
+    (splitlinesAux s cur).flatMap words = words (cur.reverse ++ s) := by
+  fun_induction splitlinesAux s cur with
+  | case1 cur h =>
+    have : cur = [] := by simpa using h
+    subst this; simp [words_nil]
+  | case2 cur h => simp
+  | case3 c cur h =>
+    have : sep c = true := by simp [sep, h]
+    simp [words_concat_sep _ _ this]
+  | case4 c cur h => simp
+  | case5 c d rest cur h ih =>
+    have h' : c = '\r' ∧ d = '\n' := by simpa using h
+    obtain ⟨rfl, rfl⟩ := h'
+    rw [List.flatMap_cons, ih,
+      words_append_sep _ _ _ (show sep '\r' = true by decide),
+      words_sep_cons _ _ (show sep '\n' = true by decide)]
+    simp
+  | case6 c d rest cur h hb ih =>
+    have : sep c = true := by simp [sep, hb]
+    rw [List.flatMap_cons, ih, words_append_sep _ _ _ this]
+    simp
+  | case7 c d rest cur h hb ih =>
+    rw [ih]; simp
+
+/-- **words are preserved whole and in order** by `diagnostic.wrap`'s line list -/
+theorem words_wrapLines (text : Str) (w : Nat) : (wrapLines text w).flatMap words = words text := by
+  unfold wrapLines
+  have key : ∀ ps : List Str, (ps.flatMap fun p => orEmptyLine (textwrap w p)).flatMap words
+      = ps.flatMap words := by
+    intro ps
+    induction ps with
+    | nil => simp
+    | cons p ps ih =>
+      rw [List.flatMap_cons, List.flatMap_append, ih, List.flatMap_cons, words_orEmptyLine, words_textwrap]
+  rw [key, words_orEmptyLine]
+  have := words_splitlinesAux text []
+  simpa [splitlines] using this
 
 end GuppyVerif.Render
